@@ -735,6 +735,113 @@ func allocCheck() {
 	}
 }
 
+func rdataHostile(r *Rng, mult int) {
+	pool := &NamePool{R: r}
+	run := func(t string) {
+		c := baseCfg(z.Lit(t))
+		c.DefTTL = 3600
+		emitParse(c, false, "rdata")
+		stat["rdata_hostile_texts"]++
+	}
+	hostile := func(txt string, every bool) {
+		stat["rdata_hostile_records"]++
+		for i := 0; i <= len(txt); i++ {
+			if !every && i < len(txt) && i > 0 && txt[i] != ' ' && txt[i] != '\t' && txt[i-1] != ' ' && txt[i-1] != '\t' {
+				continue // token boundaries only
+			}
+			run(txt[:i])
+			run(txt[:i] + "\n")
+		}
+		toks := strings.Fields(txt)
+		for j := range toks {
+			drop := append(append([]string{}, toks[:j]...), toks[j+1:]...)
+			run(strings.Join(drop, " ") + "\n")
+			dbl := append(append(append([]string{}, toks[:j+1]...), toks[j]), toks[j+1:]...)
+			run(strings.Join(dbl, " ") + "\n")
+		}
+	}
+	// the base texts are VALID records (they parse): only then do the cuts reach every state of the
+	// type's own parser.  Types whose random values rarely print to valid text have curated lines.
+	for _, t := range AllTypes() {
+		got := 0
+		for k := 0; k < 40 && got < 2*mult; k++ {
+			rr, info := GenRR(r, pool, t, false)
+			if rr == nil || !info.WellFormed {
+				continue
+			}
+			var txt string
+			if Protect(func() string { txt = rr.String(); return "ok" }) != "ok" || len(txt) > 400 {
+				continue
+			}
+			if _, err := dns.NewRR(txt); err != nil {
+				continue
+			}
+			hostile(txt, got == 0)
+			got++
+		}
+		if got == 0 {
+			stat["rdata_hostile_type_without_valid_text"]++
+		}
+	}
+	for _, txt := range curatedRdata {
+		if _, err := dns.NewRR(txt); err != nil {
+			stat["rdata_hostile_curated_not_valid"]++ // still cut below: it reaches the states before its error
+		}
+		hostile(txt, true)
+	}
+}
+
+// valid records of types with irregular grammars (scan_rr.go): every optional part present / absent
+var curatedRdata = []string{
+	"example.com. LOC 42 21 43.952 N 71 5 6.344 W -24m 1m 200m 10m",
+	"example.com. LOC 42 21 43.952 N 71 5 6.344 W -24m",
+	"example.com. LOC 42 N 71 W 0m",
+	"example.com. 3600 IN LOC 52 14 05 N 00 08 50 E 10m",
+	"example.com. GPOS -32.6882 116.8652 10.0",
+	"example.com. HIP 2 200100107B1A74DF365639CC39F1D578 AwEAAbdxyhNuSutc5EMzxTs9LBPCIkOFH8cIvM4p9+LrV4e19WzK00+CI6zBCQTdtWsuxKbWIy87UOoJTwkUs7lBu+Upr1gsNrut79ryra+bSRGQb1slImA8YVJyuIDsj7kwzG7jnERNqnWxZ48AWkskmdHaVDP4BcelrTI3rMXdXF5D rvs.example.com. rvs2.example.com.",
+	"example.com. NSEC3 1 1 12 aabbccdd 2t7b4g4vsa5smi47k61mv5bv1a22bojr MX DNSKEY NS SOA NSEC3PARAM RRSIG",
+	"example.com. NSEC3 1 0 0 - 2t7b4g4vsa5smi47k61mv5bv1a22bojr",
+	"example.com. RRSIG A 5 3 86400 20030322173103 20030220173103 2642 example.com. oJB1W6WNGv+ldvQ3WDG0MQkg5IEhjRip8WTrPYGv07h108dUKGMeDPKijVCHX3DDKdfb+v6oB9wfuh3DTJXUAfI/M0zmO/zz8bW0Rznl8O3tGNazPwQKkRN20XPXV6nwwfoXmJQbsLNrLfkGJ5D6fwFm8nN+6pBzeDQfsS3Ap3o=",
+	"example.com. CSYNC 66 3 A NS AAAA",
+	"example.com. SVCB 1 svc.example.com. alpn=h2,h3 port=8443 ipv4hint=192.0.2.1,192.0.2.2 ipv6hint=2001:db8::1 key65400=\"a b\" mandatory=alpn,port no-default-alpn ech=AAA= dohpath=/dns-query{?dns}",
+	"example.com. HTTPS 0 alias.example.com.",
+	"example.com. APL 1:192.168.32.0/21 !1:192.168.38.0/28 2:2001:db8::/32",
+	"example.com. IPSECKEY 10 1 2 192.0.2.38 AQNRU3mG7TVTO2BkR47usntb102uFJtugbo6BSGvgqt4AQ==",
+	"example.com. IPSECKEY 10 3 2 mygateway.example.com. AQNRU3mG7TVTO2BkR47usntb102uFJtugbo6BSGvgqt4AQ==",
+	"example.com. IPSECKEY 10 0 2 . AQNRU3mG7TVTO2BkR47usntb102uFJtugbo6BSGvgqt4AQ==",
+	"example.com. AMTRELAY 10 1 2 2001:db8::15",
+	"example.com. AMTRELAY 10 0 3 relay.example.com.",
+	"example.com. CERT PKIX 65535 RSASHA256 AQNRU3mG7TVTO2BkR47usntb102uFJtugbo6BSGvgqt4AQ==",
+	"example.com. NAPTR 100 10 \"S\" \"SIP+D2U\" \"!^.*$!sip:info@example.com!\" _sip._udp.example.com.",
+	"example.com. CAA 128 issue \"ca.example.net; account=230123\"",
+	"example.com. TLSA 3 1 1 d2abde240d7cd3ee6b4b28c54df034b97983a1d16e8a410e4561cb106618e971",
+	"example.com. SSHFP 2 1 123456789abcdef67890123456789abcdef67890",
+	"example.com. NID 10 0014:4fff:ff20:ee64",
+	"example.com. L32 10 10.1.2.0",
+	"example.com. L64 10 2001:0db8:1140:1000",
+	"example.com. EUI48 00-00-5e-00-53-2a",
+	"example.com. EUI64 00-00-5e-ef-10-00-00-2a",
+	"example.com. URI 10 1 \"ftp://ftp1.example.com/public\"",
+	"example.com. TKEY hmac. 1 2 3 4 AQID 0",
+	"example.com. ZONEMD 2018031500 1 1 FEBE3D4CE2EC2FFA4BA99D46CD69D6D29711E55217057BEE7EB1A7B641A47BA7FED2DD5B97AE499FAFA4F22C6BD647DE",
+	"example.com. SOA ns.example.com. hostmaster.example.com. ( 2023010101 1h 15m 1w 1d )",
+	"example.com. TALINK a.example.com. b.example.com.",
+	"example.com. X25 311061700956",
+	"example.com. ISDN \"150862028003217\" \"004\"",
+	"example.com. RT 2 relay.example.com.",
+	"example.com. PX 10 map822.example.com. mapx400.example.com.",
+	"example.com. DHCID AAIBY2/AuCccgoJbsaxcQc9TUapptP69lOjxfNuVAA2kjEA=",
+	"example.com. OPENPGPKEY mQENBFVHm5sBCADH",
+	"example.com. NINFO \"a\" \"b c\"",
+	"example.com. UINFO \"user info\"",
+	"example.com. UID 1000",
+	"example.com. EID 4d65",
+	"example.com. NSAPPTR foo.example.com.",
+	"example.com. KEY 256 3 5 AQPSKmynfzW4kyBv015MUG2DeIQ3Cbl+BBZH4b/0PY1kxkmvHjcZc8nokfzj31GajIQKY+5CptLr3buXA10hWqTkF7H6RfoRqXQeogmMHfpftf6zMv1LyBUgia7za6ZEzOJBOztyvhjL742iU/TpPSEDhm2SNKLijfUppn1UaNvv4w==",
+	"example.com. NXT next.example.com. A NS NXT",
+	"example.com. SIG A 5 3 86400 20030322173103 20030220173103 2642 example.com. oJB1W6WNGv+ldvQ3WDG0MQkg5IEhjRip8WTrPYGv07h108dUKGMeDPKijVCHX3DDKdfb+v6oB9wfuh3DTJXUAfI/M0zmO/zz8bW0Rznl8O3tGNazPwQKkRN20XPXV6nwwfoXmJQbsLNrLfkGJ5D6fwFm8nN+6pBzeDQfsS3Ap3o=",
+}
+
 func runC07(r *Rng, tier string, n int) {
 	mult := 1
 	if tier == "thorough" {
@@ -810,6 +917,10 @@ func runC07(r *Rng, tier string, n int) {
 		}
 		emitParse(randCfg(r, t), false, "volume")
 	}
+	// every record type's own RDATA parser (scan_rr.go): the printed form of generated records of
+	// every registered type, cut at every offset (with and without a final newline) and with each
+	// single token removed or doubled: no panic, errors carry a position (oracle only)
+	rdataHostile(r, mult)
 	for _, sz := range sizes {
 		for k, rc := range longRecipes(sz) {
 			c := baseCfg(rc)
